@@ -469,4 +469,88 @@ theorem regOK_activate (pi : Nat) (p : PoolSt) (w : W) (hp : w.pools[pi]? = some
     · simp only [hj, if_false, Nat.add_zero]
       exact (want_other w _ pi hother _ (by simpa using hj)).symm
 
+/-! ### a freshly configured daemon -/
+
+/-- what the pools `ps` (slots `off`, `off+1`, …) contribute to the registry at start-up -/
+def wantL : Nat → List PoolSt → Entry → Nat
+  | _, [], _ => 0
+  | off, p :: ps, x => (if p.active then (regEntries off p poolSubscribe).count x else 0) + wantL (off + 1) ps x
+
+theorem count_subscribePool (i : Nat) (p : PoolSt) (r : List Entry) (x : Entry) :
+    (subscribePool i p r).count x = r.count x + (regEntries i p poolSubscribe).count x := by
+  unfold subscribePool
+  exact count_foldl_subscribe x _ _
+
+theorem count_bootReg (x : Entry) : ∀ (ps : List PoolSt) (off : Nat) (r : List Entry),
+    (bootReg off ps r).count x = r.count x + wantL off ps x
+  | [], off, r => by simp [bootReg, wantL]
+  | p :: ps, off, r => by
+    simp only [bootReg, wantL]
+    rw [count_bootReg x ps (off + 1)]
+    cases ha : p.active
+    · simp
+    · simp only [initSubscribes, Bool.and_self, if_true]
+      rw [count_subscribePool]
+      omega
+
+theorem wantL_eq (x : Entry) : ∀ (ps : List PoolSt) (off : Nat),
+    wantL off ps x =
+      match x with
+      | (.cls t, .accept j) =>
+        if j < off then 0 else
+          match ps[j - off]? with
+          | some p => if p.active then p.subs.count t else 0
+          | none => 0
+      | (.rejected, .handleRejected j) =>
+        if j < off then 0 else
+          match ps[j - off]? with
+          | some p => if p.active then 1 else 0
+          | none => 0
+      | _ => 0
+  | [], off => by
+    obtain ⟨t, c⟩ := x
+    cases t <;> cases c <;> simp [wantL]
+  | p :: ps, off => by
+    have ih := wantL_eq x ps (off + 1)
+    have hes := regEntries_subscribe off p x
+    simp only [wantL]
+    rw [ih, hes]
+    obtain ⟨t, c⟩ := x
+    cases t <;> cases c <;> simp only []
+    · rename_i t j
+      by_cases h1 : j < off
+      · have : j ≠ off := by omega
+        have h2 : j < off + 1 := by omega
+        simp [h1, h2, this]
+      · by_cases h2 : j = off
+        · subst h2
+          simp
+        · have h3 : ¬ j < off + 1 := by omega
+          have h4 : j - off = (j - (off + 1)) + 1 := by omega
+          simp only [h1, h2, h3, if_false, h4, List.getElem?_cons_succ]
+          simp
+    · simp
+    · simp
+    · rename_i j
+      by_cases h1 : j < off
+      · have : j ≠ off := by omega
+        have h2 : j < off + 1 := by omega
+        simp [h1, h2, this]
+      · by_cases h2 : j = off
+        · subst h2
+          simp
+        · have h3 : ¬ j < off + 1 := by omega
+          have h4 : j - off = (j - (off + 1)) + 1 := by omega
+          simp only [h1, h2, h3, if_false, h4, List.getElem?_cons_succ]
+          simp
+
+/-- **the registry of a freshly configured daemon**: every configured pool that is created at start-up has
+    subscribed, the others have not -/
+theorem regOK_boot (ps : List PoolSt) : RegOK (boot ps) := by
+  intro x
+  show (bootReg 0 ps []).count x = want (boot ps) x
+  rw [count_bootReg, wantL_eq]
+  obtain ⟨t, c⟩ := x
+  cases t <;> cases c <;> simp [want, boot]
+
 end Sv.Pool
